@@ -1,6 +1,7 @@
 package main
 
 import (
+	"go/constant"
 	"fmt"
 	"go/token"
 	"go/types"
@@ -429,6 +430,7 @@ func (p *Prog) pathConstraintSets(at ssa.Instruction, e *linEnv, cap int) ([][]*
 	target := at.Block()
 	var res [][]*linForm
 	complete := true
+	cameFrom := map[*ssa.BasicBlock]*ssa.BasicBlock{} // predecessor of each block on the path being walked
 	var walk func(b *ssa.BasicBlock, onPath map[*ssa.BasicBlock]bool, alts [][]*linForm)
 	walk = func(b *ssa.BasicBlock, onPath map[*ssa.BasicBlock]bool, alts [][]*linForm) {
 		if len(res) > cap {
@@ -446,17 +448,19 @@ func (p *Prog) pathConstraintSets(at ssa.Instruction, e *linEnv, cap int) ([][]*
 			}
 			na := alts
 			if l, ok := edgeLit(b, s); ok {
-				if bo, isB := l.V.(*ssa.BinOp); isB {
-					if cs := e.fromCmp(bo, l.Pos); cs != nil {
-						var out [][]*linForm
-						for _, base := range alts {
-							for _, alt := range cs {
-								n := append(append([]*linForm{}, base...), alt...)
-								out = append(out, n)
-							}
+				cs, feasible := condOnPath(e, l.V, l.Pos, cameFrom, 0)
+				if !feasible {
+					continue // a boolean phi that is constant along this path decides the branch the other way
+				}
+				if cs != nil {
+					var out [][]*linForm
+					for _, base := range alts {
+						for _, alt := range cs {
+							n := append(append([]*linForm{}, base...), alt...)
+							out = append(out, n)
 						}
-						na = out
 					}
+					na = out
 				}
 			}
 			// integer phis of a join block that is not a loop header take the value of the edge followed
@@ -494,7 +498,9 @@ func (p *Prog) pathConstraintSets(at ssa.Instruction, e *linEnv, cap int) ([][]*
 				}
 			}
 			if blockReaches(s, target) || s == target {
+				cameFrom[s] = b
 				walk(s, onPath, na)
+				delete(cameFrom, s)
 			}
 		}
 		delete(onPath, b)
@@ -570,6 +576,12 @@ func (p *Prog) proveInRange(at ssa.Instruction, idx ssa.Value, base ssa.Value, s
 		negHi := li.addScaled(ll, big.NewRat(-1, 1))
 		negHi.k.Add(negHi.k, big.NewRat(-slack-1, 1))
 		if !infeasible(append(append([]*linForm{}, axioms...), negHi)) {
+			if os.Getenv("BBL_DEBUG_LIN") != "" {
+				for _, a := range axioms {
+					fmt.Fprintln(os.Stderr, "  AX", a.String(), ">= 0")
+				}
+				fmt.Fprintln(os.Stderr, "  NEGHI", negHi.String())
+			}
 			return false, "cannot prove " + li.String() + " <= " + lenName + fmt.Sprintf("%+d", slack) + " from the guards on some path"
 		}
 	}
@@ -653,4 +665,42 @@ func fieldOfAddr(addr ssa.Value) (*types.Var, ssa.Value) {
 		return fieldVar(fa.X.Type(), fa.Field), fa.X
 	}
 	return nil, nil
+}
+
+// condOnPath: what the assertion "v is pos" contributes on the path being walked: the constraints
+// of a comparison; for a boolean phi (the value form of && / || that a switch case or an assigned
+// condition produces) the operand selected by the edge through which the path entered the phi's
+// block. A constant operand of the wrong polarity makes the edge infeasible.
+func condOnPath(e *linEnv, v ssa.Value, pos bool, cameFrom map[*ssa.BasicBlock]*ssa.BasicBlock, depth int) ([][]*linForm, bool) {
+	v, pos = stripNot(v, pos)
+	switch x := v.(type) {
+	case *ssa.BinOp:
+		return e.fromCmp(x, pos), true
+	case *ssa.Const:
+		if x.Value != nil && x.Value.Kind() == constant.Bool {
+			return nil, constant.BoolVal(x.Value) == pos
+		}
+	case *ssa.Phi:
+		if depth > 6 {
+			return nil, true
+		}
+		pr, ok := cameFrom[x.Block()]
+		if !ok {
+			return nil, true
+		}
+		idx := -1
+		for k, q := range x.Block().Preds {
+			if q == pr {
+				if idx >= 0 {
+					return nil, true
+				}
+				idx = k
+			}
+		}
+		if idx < 0 {
+			return nil, true
+		}
+		return condOnPath(e, x.Edges[idx], pos, cameFrom, depth+1)
+	}
+	return nil, true
 }
